@@ -94,6 +94,7 @@ class Hist:
         t_lo, t_hi = us_of(self.years[0]), us_of(self.years[-1] + 1) - 1
         self.t_lo, self.t_hi = t_lo, t_hi
         self.t, self.off, self.a, self.p, self.f = [], [], [], [], []
+        self.w = {}  # slot -> exchange-supplied fiat_in_with_fee (cents), for acquisitions marked wf=True
         self.price_k = price_k
         for i, s in enumerate(slots):
             nm = "%s%d" % (prefix, i)
@@ -120,6 +121,8 @@ class Hist:
             self.off.append(off)
             self.a.append(S.int("a" + nm, 1, amount_max))
             self.p.append(S.int("p" + nm, price_min, price_max))
+            if s.get("wf") and s["table"] == "IN":
+                self.w[i] = S.int("w" + nm, 1, 10**13)
             if s["fee"] == "pos":
                 self.f.append(S.int("f" + nm, 1, amount_max))
             elif s["fee"] == "any":
@@ -155,7 +158,11 @@ class Hist:
             amt = S.dec(self.a[i], AMOUNT_K)
             if s["table"] == "IN":
                 fiat_fee = S.dec(self.f[i], 2) if s["fee"] != "none" else ZERO
-                tx = InTransaction(cfg, ts, asset, s["ex"], s["ho"], s["type"], price, amt, fiat_fee=fiat_fee, row=self.row(i), unique_id=s.get("uid"))
+                if i in self.w:
+                    # the exchange's own total for the acquisition: rp2 warns when it differs from amount x price + fee and uses it
+                    tx = InTransaction(cfg, ts, asset, s["ex"], s["ho"], s["type"], price, amt, fiat_fee=fiat_fee, fiat_in_with_fee=S.dec(self.w[i], 2), row=self.row(i), unique_id=s.get("uid"))
+                else:
+                    tx = InTransaction(cfg, ts, asset, s["ex"], s["ho"], s["type"], price, amt, fiat_fee=fiat_fee, row=self.row(i), unique_id=s.get("uid"))
                 ins.add_entry(tx)
             elif s["table"] == "OUT":
                 fee = S.dec(self.f[i], AMOUNT_K) if s["fee"] != "none" else ZERO
